@@ -8,7 +8,7 @@ IDS = ['C%02d' % i for i in range(1, 21)]
 COMMON_NOTE = ('Trusted: Coq 8.16.1 kernel (vm_compute, no native_compute); OCaml extraction (ExtrOcamlBasic only) cross-checked by '
                'vm_compute; translators in /verif/translate; the Python harness. Modelled, not verified: ')
 CLAIMED = {
- 'C01': ('Coq proof of the symmetric-delete search (candidate completeness via common deletion variant, exact filter); deletion-variant generator regenerated from nn._comb_gen and proved equal to the model; differential run of the extracted model vs symdel/nearest_neighbor',
+ 'C01': ('Coq proof of the symmetric-delete search (candidate completeness via common deletion variant, exact filter); nn._comb_gen, SymdelDB.__init__ and the self-mode branch of symdel() regenerated from the source and proved to return exactly the ordered pairs of distinct positions within max_edits, each once, for any set iteration order; differential run of the extracted model vs symdel/nearest_neighbor',
          'Theorems C01_* (coq/props/C01.v): for every list of strings over any alphabet and every k the modelled bucket-pairing algorithm returns exactly {(i,j,lev): i<>j, lev<=k}, no pair repeated, duplicates at distance 0, never (i,i); slev is proved to be the optimal edit cost. Unbounded in sizes and k. Tie to nn.py: nn._comb_gen is regenerated from the source on every run and proved to yield exactly the deletion variants of the model (C01_source_comb_gen, coq/props/C01g.v); the rest by the correspondence run (exhaustive small alphabets in one call + random clonal repertoires).',
          COMMON_NOTE + 'rapidfuzz Levenshtein.distance, Python set/dict/itertools semantics.', 'DESIGN.md section 4 C01'),
  'C02': ('Coq proof: sum c(c-1) over multiplicities = number of ordered coinciding position pairs (cross form: sum of count products), permutation / injective-relabel invariance, row-key join injective under the no-separator guard; pc_n and both counting tails of pc regenerated from stats.py proved equal to the counting definition (any listing order of np.unique); exact-fraction differential runs',
